@@ -2,6 +2,7 @@
 (* code -> spec for C11: each event is one real round trip                                           *)
 (*   [ev |-> "RoundTrip", cls, status, cfg1, cfg2 (canonical configs: nested records / tuples of strings), *)
 (*    vars1, vars2 (names and shapes of the variables), outs1, outs2 (probe outputs, fixed point), tolu]     *)
+(*    outs3 (optional: format |-> probe outputs of the layer after model.save / load_model in that format)]  *)
 (* status "ok" means every step of the protocol ran; anything else names the step that raised.             *)
 EXTENDS Integers, Sequences, TLC, TraceBase
 VARIABLE l
@@ -12,6 +13,7 @@ Clauses(e) ==
   ELSE (IF e.cfg1 = e.cfg2 THEN {} ELSE {"ConfigEqual"})
        \cup (IF e.vars1 = e.vars2 THEN {} ELSE {"VariablesEqual"})
        \cup (IF NearI(e.outs1, e.outs2, e.tolu) THEN {} ELSE {"OutputsEqual"})
+       \cup (IF Has(e, "outs3") /\ \E f \in DOMAIN e.outs3 : ~NearI(e.outs1, e.outs3[f], e.tolu) THEN {"SavedModelOutputsEqual"} ELSE {})
 TraceInit == l = 1
 TraceNext == /\ l <= Len(Trace) /\ l' = l + 1 /\ Record(Trace[l].i, Clauses(Trace[l]))
 TraceSpec == TraceInit /\ [][TraceNext]_tvars
